@@ -50,7 +50,12 @@ func (f *When) Call(s *slip.Scope, args slip.List, depth int) (result slip.Objec
 	result = nil
 	d2 := depth + 1
 	pos := 0
-	if firstValue(slip.EvalArg(s, args, pos, d2)) != nil {
+	test := slip.EvalArg(s, args, pos, d2)
+	switch test.(type) {
+	case *slip.ReturnResult, *GoTo:
+		return test
+	}
+	if firstValue(test) != nil {
 		for pos++; pos < len(args); pos++ {
 			result = slip.EvalArg(s, args, pos, d2)
 			switch result.(type) {
